@@ -504,15 +504,18 @@ def andWhere (f w : Option CExpr) : Option CExpr :=
   | some f, none => some f
   | some f, some w => some (.and [f, w])
 
+/-- what an expression sees of a compiled nested SELECT -/
+def subqOf (r : CM Compiled) : CM SubResult :=
+  match r with
+  | .error x => .error x
+  | .ok (.query cq) => .ok (.query cq)
+  | .ok (.pivot _ _ _) => .ok .pivot
+
 /-- `Compiler._select` with the current table `outer` (what `self.table` is on entry). -/
 def compileSelect (ctx : Ctx) : Nat → TableDef → Select → CM Compiled
   | 0, _, _ => .error .fuel
   | fuel + 1, outer, sel =>
-    let subqFor (tbl : TableDef) : Select → CM SubResult := fun q =>
-      match compileSelect ctx fuel tbl q with
-      | .error x => .error x
-      | .ok (.query cq) => .ok (.query cq)
-      | .ok (.pivot _ _ _) => .ok .pivot
+    let subqFor (tbl : TableDef) : Select → CM SubResult := fun q => subqOf (compileSelect ctx fuel tbl q)
     -- FROM
     let fromRes : CM (TableDef × Option CExpr × Nat) :=
       match sel.from_ with
